@@ -118,6 +118,7 @@ struct FillV : VisitorBase<FillV> {
         }
     }
     void fill(uint8_t * d, size_t n) {
+        if (n == 0 || d == nullptr) return;
         switch (pattern) {
         case P_UNIQUE: for (size_t i = 0; i < n; i++) d[i] = next(); break;
         case P_ZERO: memset(d, 0, n); break;
